@@ -5,12 +5,13 @@ import corelib
 SPEC = dict(
     prop='C03',
     corr=[('runcases', 6, 16, ['-n', '200', '-profile', 'values'], ('',)),
-          ('reach-cases', 2, 8, ['-n', '300'], ('',))],
+          ('reach-cases', 2, 8, ['-n', '300'], ('',)),
+          ('string-cases', 2, 8, ['-n', '400'], ('',))],
     oracles=[('c03-oracle',
               [['-n', '3000', '-seed', '{seed}'] for _ in range(8)],
               [['-n', '30000', '-seed', '{seed}'] for _ in range(16)])],
     oracle_props=['C03'],
-    partial=['proved in the model: integer kinds (all signed/unsigned ranges incl. type extremes and the 65-bit overflow draw), index draws, and - see Properties/C03.v - the combinators of the generator-expression language; floats (never NaN, clamping against min/max parts), strings/runes (UTF-8, rune and byte limits), regexp generators and Make are not modelled: their contracts are decided on the implementation by the c03-oracle, which drives every public constructor with hostile bitstreams (all-zero, all-ones, 2^k, 2^k-1 words, truncated) and PRNG streams',
+    partial=['proved in the model: integer kinds (all signed/unsigned ranges incl. type extremes and the 65-bit overflow draw), index draws, and - see Properties/C03.v - the combinators of the generator-expression language; strings over an arbitrary rune generator expression (rune count, byte budget, valid code points: C03_string_contract, tied by string-cases); floats (never NaN, clamping against min/max parts), the default Rune()/String() tables, regexp generators and Make are not modelled: their contracts are decided on the implementation by the c03-oracle, which drives every public constructor with hostile bitstreams (all-zero, all-ones, 2^k, 2^k-1 words, truncated) and PRNG streams',
              '"never loops forever": on finite bitstreams termination is a theorem when Proofs/Termination.v is present; on the PRNG the rejection loops terminate with probability 1 only, which is not a theorem (oracle: every run is under a time limit)'],
     assumptions=['values are compared through the canonical printer of the harness; floats are not compared numerically'],
 )
